@@ -1,10 +1,222 @@
-(* C05 — placeholder while the proofs are being written: a computed sanity
-   example only.  The theorems of DESIGN.md section 4 C05 replace this file. *)
-From Moc Require Import Base Match Cache CacheSpec.
+(* C05 — Deletion requests touch only the author's own events; authors are
+   isolated.  Statements only; each is closed by [exact] of a lemma proved in
+   CacheInvProofs.v / CacheAddProofs.v / CacheExamples.v and followed by
+   Print Assumptions.  Notation and hypotheses as in Properties/C04.v:
+   [step_hyps s e] = invariant, distinct ids, ':'-free ids and pubkeys,
+   well-shaped deletion-request tags ([k5_wf]), no suppressed ephemeral event
+   ([eph_ok]), capacity >= 1; every prefix of a history with [hist_ok5]
+   satisfies it ([C05_hist_step_hyps]). *)
+From Coq Require Import Permutation Sorted.
+From Moc Require Import Base Match Cache CacheSpec CacheInv CacheHyp
+  CacheFacts CacheInvProofs CacheAddProofs CacheExamples.
 Open Scope Z_scope.
 
-Example C05_sanity :
-  let e1 := mkEvent [1]%N [9]%N 3 1 [] [] [] in
-  let e2 := mkEvent [2]%N [9]%N 4 1 [] [] [] in
-  c_listing (c_run 1 [e1; e2]) = [e2].
-Proof. vm_compute. reflexivity. Qed.
+(* ------------------------------------------------------------------ *)
+(** * Step-by-step refinement against the C05 oracle *)
+
+Theorem C05_add_refines : forall s e,
+  Inv s -> ids_functional (e :: retained s) ->
+  key_wf e -> Forall key_wf (retained s) ->
+  k5_wf e -> Forall k5_wf (retained s) ->
+  eph_ok (c_listing s) e -> 1 <= c_cap s ->
+  step_ok_c05 (c_cap s) (c_listing s) e (snd (c_add s e)) (c_listing (fst (c_add s e))) = true.
+Proof. exact add_refines_c05. Qed.
+Print Assumptions C05_add_refines.
+
+Theorem C05_history_refines : forall cap h,
+  hist_ok5 h -> 1 <= cap ->
+  forall h1 e h2, h = h1 ++ e :: h2 ->
+    step_ok_c05 cap (c_listing (c_run cap h1)) e (snd (c_add (c_run cap h1) e))
+                (c_listing (c_run cap (h1 ++ [e]))) = true.
+Proof. exact history_refines_c05. Qed.
+Print Assumptions C05_history_refines.
+
+Theorem C05_run_refines : forall cap h,
+  hist_ok5 h -> 1 <= cap -> run_steps_ok step_ok_c05 cap (c_empty cap) h = true.
+Proof. exact run_refines_c05. Qed.
+Print Assumptions C05_run_refines.
+
+Theorem C05_hist_step_hyps : forall cap h1 e h2,
+  hist_ok5 (h1 ++ e :: h2) -> 1 <= cap -> step_hyps (c_run cap h1) e.
+Proof. exact hist_step_hyps. Qed.
+Print Assumptions C05_hist_step_hyps.
+
+(** the C05 oracle accepts every step that meets the declarative C04 step
+    specification: C05 adds no obligation beyond it *)
+Theorem C05_oracle_from_step_spec : forall cap R e added R',
+  step_c04 cap R e added R' ->
+  (forall y, In y R -> ev_id y = ev_id e -> y = e) -> NoDup R ->
+  step_ok_c05 cap R e added R' = true.
+Proof. exact c04_implies_c05. Qed.
+Print Assumptions C05_oracle_from_step_spec.
+
+(** the code's reading of a deletion request's tags ("some a/e tag value is
+    the stored key or the id") is the property's [refs] on well-shaped
+    requests *)
+Theorem C05_names_is_refs : forall d x,
+  ev_kind d = 5 -> k5_wf d -> key_wf x -> GenMsg.g_event_type (ev_kind x) <> 3 ->
+  ((exists k, In k (k5_keys d) /\ (event_key x = k \/ ev_id x = k)) <-> refs d x = true).
+Proof. exact names_refs. Qed.
+Print Assumptions C05_names_is_refs.
+
+(* ------------------------------------------------------------------ *)
+(** * The clauses of the property *)
+
+(** an accepted deletion request removes exactly the retained events of its
+    own author that it references (by id or by address); everything else
+    stays, except one event of minimal created_at when capacity is exceeded *)
+Theorem C05_k5_removes_exactly : forall s e,
+  step_hyps s e -> ev_kind e = 5 -> snd (c_add s e) = true ->
+  (forall x, In x (c_listing (fst (c_add s e))) ->
+             (In x (c_listing s) \/ x = e) /\ ~ (ev_pk x = ev_pk e /\ refs e x = true)) /\
+  (forall x, (In x (c_listing s) \/ x = e) -> ~ (ev_pk x = ev_pk e /\ refs e x = true) ->
+             In x (c_listing (fst (c_add s e))) \/
+             (c_cap s < Z.of_nat (length (base_after (c_listing s) e)) /\
+              forall y, in_base (c_listing s) e y -> ev_ts x <= ev_ts y)).
+Proof. exact k5_removes_exactly. Qed.
+Print Assumptions C05_k5_removes_exactly.
+
+(** the request itself is kept and served like a regular event (unless it
+    references itself or falls victim to capacity) *)
+Theorem C05_k5_kept : forall s e,
+  step_hyps s e -> ev_kind e = 5 -> snd (c_add s e) = true -> refs e e = false ->
+  In e (c_listing (fst (c_add s e))) \/
+  c_cap s < Z.of_nat (length (base_after (c_listing s) e)).
+Proof. exact k5_kept. Qed.
+Print Assumptions C05_k5_kept.
+
+(** as long as the request is retained, the events it references cannot be
+    inserted again: the insertion is reported as not new and changes nothing *)
+Theorem C05_k5_blocks_while_retained : forall s e d,
+  step_hyps s e ->
+  In d (c_listing s) -> ev_kind d = 5 -> ev_pk d = ev_pk e -> refs d e = true ->
+  snd (c_add s e) = false /\ c_listing (fst (c_add s e)) = c_listing s.
+Proof. exact k5_blocks_while_retained. Qed.
+Print Assumptions C05_k5_blocks_while_retained.
+
+(** the deletion registry is exactly what the retained deletion requests
+    induce: the entry for (key, author) holds the ids of the retained
+    requests by that author naming that key, and is absent when there is
+    none — in every state satisfying the invariant, hence after requests
+    were evicted, deleted by other requests, or referenced themselves *)
+Theorem C05_k5_registry_sound : forall s k a,
+  Inv s ->
+  match al_get dkey_eqb (k, a) (c_del s) with
+  | Some ids => ids <> [] /\ NoDup ids /\
+      forall i, In i ids <->
+        exists d, In d (retained s) /\ ev_kind d = 5 /\ ev_pk d = a /\ In k (k5_keys d) /\ ev_id d = i
+  | None => forall d, In d (retained s) -> ~ (ev_kind d = 5 /\ ev_pk d = a /\ In k (k5_keys d))
+  end.
+Proof. exact k5_registry_sound. Qed.
+Print Assumptions C05_k5_registry_sound.
+
+Theorem C05_k5_registry_sound_reachable : forall cap h k a,
+  hist_ok h ->
+  match al_get dkey_eqb (k, a) (c_del (c_run cap h)) with
+  | Some ids => ids <> [] /\ NoDup ids /\
+      forall i, In i ids <->
+        exists d, In d (retained (c_run cap h)) /\ ev_kind d = 5 /\ ev_pk d = a /\
+                  In k (k5_keys d) /\ ev_id d = i
+  | None => forall d, In d (retained (c_run cap h)) ->
+                      ~ (ev_kind d = 5 /\ ev_pk d = a /\ In k (k5_keys d))
+  end.
+Proof. exact k5_registry_sound_reachable. Qed.
+Print Assumptions C05_k5_registry_sound_reachable.
+
+(** closedness: no retained event is named by a retained deletion request
+    of its own author *)
+Theorem C05_closed_reachable : forall cap h x d,
+  hist_ok h -> In x (retained (c_run cap h)) -> In d (retained (c_run cap h)) ->
+  ev_kind d = 5 -> ev_pk x = ev_pk d ->
+  ~ In (event_key x) (k5_keys d) /\ ~ In (ev_id x) (k5_keys d).
+Proof. exact closed_reachable. Qed.
+Print Assumptions C05_closed_reachable.
+
+(** an insertion by one author never removes or replaces an event of a
+    different author, except the single capacity victim of minimal created_at *)
+Theorem C05_author_isolation_remove : forall s e x,
+  step_hyps s e -> In x (c_listing s) -> ev_pk x <> ev_pk e ->
+  In x (c_listing (fst (c_add s e))) \/
+  (snd (c_add s e) = true /\
+   c_cap s < Z.of_nat (length (base_after (c_listing s) e)) /\
+   (forall y, in_base (c_listing s) e y -> ev_ts x <= ev_ts y) /\
+   forall y, In y (c_listing s) -> ev_pk y <> ev_pk e ->
+             ~ In y (c_listing (fst (c_add s e))) -> y = x).
+Proof. exact author_isolation_remove. Qed.
+Print Assumptions C05_author_isolation_remove.
+
+(** ... and never blocks one: a rejected insertion is explained by a retained
+    event of the same author — the same id, the same address and not older,
+    or a deletion request referencing it *)
+Theorem C05_author_isolation_block : forall s e,
+  step_hyps s e -> snd (c_add s e) = false ->
+  exists y, In y (c_listing s) /\ ev_pk y = ev_pk e /\
+    (ev_id y = ev_id e \/ (same_address y e = true /\ ev_ts e <= ev_ts y) \/
+     (ev_kind y = 5 /\ refs y e = true)).
+Proof. exact author_isolation_block. Qed.
+Print Assumptions C05_author_isolation_block.
+
+(* ------------------------------------------------------------------ *)
+(** * Non-vacuity (the history of Properties/C04.v: two authors, a deletion
+      request that removes its target and later blocks its re-insertion,
+      evictions that hit the other author's events) *)
+
+Example C05_example_hist_ok : hist_ok5 ex_h.
+Proof. exact ex_h_ok. Qed.
+
+(** hypotheses of [C05_k5_removes_exactly] / [C05_k5_kept] *)
+Example C05_example_k5 :
+  step_hyps (c_run 3 [x_e1; x_r1; x_r2; x_r0; x_p1]) x_d1 /\ ev_kind x_d1 = 5 /\
+  snd (c_add (c_run 3 [x_e1; x_r1; x_r2; x_r0; x_p1]) x_d1) = true /\ refs x_d1 x_d1 = false /\
+  refs x_d1 x_e1 = true /\ In x_e1 (c_listing (c_run 3 [x_e1; x_r1; x_r2; x_r0; x_p1])).
+Proof.
+  split; [exact ex_step_delete|]. split; [reflexivity|]. split; [vm_compute; reflexivity|].
+  split; [vm_compute; reflexivity|]. split; [vm_compute; reflexivity|].
+  apply In_by_ev_in. vm_compute. reflexivity.
+Qed.
+
+(** hypotheses of [C05_k5_blocks_while_retained] and [C05_author_isolation_block] *)
+Example C05_example_blocked :
+  step_hyps (c_run 3 [x_e1; x_r1; x_r2; x_r0; x_p1; x_d1]) x_e1 /\
+  In x_d1 (c_listing (c_run 3 [x_e1; x_r1; x_r2; x_r0; x_p1; x_d1])) /\
+  ev_kind x_d1 = 5 /\ ev_pk x_d1 = ev_pk x_e1 /\ refs x_d1 x_e1 = true /\
+  snd (c_add (c_run 3 [x_e1; x_r1; x_r2; x_r0; x_p1; x_d1]) x_e1) = false.
+Proof.
+  split; [exact ex_step_blocked|]. split; [apply In_by_ev_in; vm_compute; reflexivity|].
+  vm_compute. auto.
+Qed.
+
+(** hypotheses of [C05_author_isolation_remove]: B's insertion with A's
+    events retained; the one lost event is the capacity victim *)
+Example C05_example_isolation :
+  step_hyps (c_run 3 [x_e1; x_r1; x_r2; x_r0; x_p1; x_d1; x_e1; x_b1]) x_b2 /\
+  In x_r2 (c_listing (c_run 3 [x_e1; x_r1; x_r2; x_r0; x_p1; x_d1; x_e1; x_b1])) /\
+  ev_pk x_r2 <> ev_pk x_b2 /\
+  c_listing (fst (c_add (c_run 3 [x_e1; x_r1; x_r2; x_r0; x_p1; x_d1; x_e1; x_b1]) x_b2)) = [x_b2; x_b1; x_d1].
+Proof.
+  split; [now apply (ex_step 8 [x_e1; x_r1; x_r2; x_r0; x_p1; x_d1; x_e1; x_b1] x_b2 [x_eph])|].
+  split; [apply In_by_ev_in; vm_compute; reflexivity|].
+  split; [vm_compute; discriminate | vm_compute; reflexivity].
+Qed.
+
+(** the registry along the example: present while [x_d1] is retained *)
+Example C05_example_registry :
+  al_get dkey_eqb ([1]%N, pkA) (c_del (c_run 3 ex_h)) = Some [[5]%N] /\
+  al_get dkey_eqb ([1]%N, pkB) (c_del (c_run 3 ex_h)) = None.
+Proof. vm_compute. auto. Qed.
+
+(* ------------------------------------------------------------------ *)
+(** * The tag-shape condition is needed: an [a] tag that carries a bare event
+      id blocks and removes the event in the code, while the property's
+      reference by id is the [e] tag *)
+
+Theorem C05_tag_shape_needed :
+  plain_hyps (c_run 5 [w2_d]) w2_x /\ plain_hyps (c_run 5 [w2_x]) w2_d /\
+  snd (c_add (c_run 5 [w2_d]) w2_x) = false /\ suppressed (c_listing (c_run 5 [w2_d])) w2_x = false /\
+  step_ok_c04 5 (c_listing (c_run 5 [w2_d])) w2_x (snd (c_add (c_run 5 [w2_d]) w2_x))
+              (c_listing (fst (c_add (c_run 5 [w2_d]) w2_x))) = false /\
+  refs w2_d w2_x = false /\ c_listing (fst (c_add (c_run 5 [w2_x]) w2_d)) = [w2_d] /\
+  step_ok_c05 5 (c_listing (c_run 5 [w2_x])) w2_d (snd (c_add (c_run 5 [w2_x]) w2_d))
+              (c_listing (fst (c_add (c_run 5 [w2_x]) w2_d))) = false.
+Proof. exact w2_refuted. Qed.
+Print Assumptions C05_tag_shape_needed.
